@@ -189,7 +189,8 @@ REWRITE = {
              "that completes, every split's summary in the description is exact for its whole subtree (invariant: locally well-formed documents + fresh names + exact summaries, carried through add_shard, the exit rewrite and write_config's per-split merges). "
              "and (c04_no_shard_unlisted) every stored shard file is reached by the depth-first traversal from its split's root (every list document stays linked from the split root; second induction over the merge). "
              "and (c04_every_history_satisfies_exact_all) the whole executable oracle exact_all - exact summaries, no shard listed twice, none unlisted - holds after every history that completes. "
-             "PARTIAL: in-memory = on-disk description and termination of the merge (a history may end in the model's out-of-fuel/assertion error instead of completing) are not theorems; they are checked by")],
+             "TOTAL (c04_every_bounded_history_completes_and_is_exact): every history whose sessions write at most 39 directory levels below a split completes - no assertion, no inconsistent update set, no exhausted recursion budget - and satisfies the oracle. "
+             "PARTIAL: in-memory = on-disk description is not a theorem; the model is tied to the implementation by")],
     "C08": [("PARTIAL as C04: append-only over whole histories is checked on the implementation:",
              "LIFTED over whole histories (c08_history_appends_only): whatever sessions follow a prefix of a history, every stored shard file and every shard entry of every list is still there, same list, same position, "
              "only possibly followed by new entries. PARTIAL: that iteration then returns old+new examples is checked on the implementation:")],
